@@ -11,12 +11,13 @@ pub struct Graph {
     numv: usize,
     nume: usize,
     freshv: V,
+    scalar_factors: HashMap<u32, i64>,
 }
 
 /// control: hand-written Clone (forgets the outputs)
 impl Clone for Graph {
     fn clone(&self) -> Graph {
-        Graph { vdata: self.vdata.clone(), edata: self.edata.clone(), inputs: self.inputs.clone(), outputs: Vec::new(), numv: self.numv, nume: self.nume, freshv: self.freshv }
+        Graph { vdata: self.vdata.clone(), edata: self.edata.clone(), inputs: self.inputs.clone(), outputs: Vec::new(), numv: self.numv, nume: self.nume, freshv: self.freshv, scalar_factors: self.scalar_factors.clone() }
     }
 }
 
@@ -96,6 +97,14 @@ impl GraphLike for Graph {
             }
         }
         None
+    }
+    /// control: a second factor for the same expression replaces the first
+    fn mul_scalar_factor(&mut self, e: u32, s: i64) {
+        if let Some(t) = self.scalar_factors.get_mut(&e) {
+            *t = s;
+        } else {
+            self.scalar_factors.insert(e, s);
+        }
     }
     /// control: the outputs accessor hands out the inputs
     fn outputs_mut(&mut self) -> &mut Vec<V> {
